@@ -69,6 +69,16 @@ def _qscenarios():
                            "beta0": beta0, "beta1": beta1, "u": u, "accept_all": aa}
 
 
+def _qscenarios_length():
+    """Quantis scenarios at the length limit: the [0+] continuation lingers inside the interfaces (must end FTX, never ACC)."""
+    for ml in (4, 5, 6, 8):
+        for forw in ([0.5] * 12, [0.5, 0.6, 1.2], [0.4, -0.2]):
+            for back in ([-0.3, -0.2, 0.4], [-0.3] * 12):
+                yield {"function": "quantis_swap_zero", "old0": [0.3, -0.4, -0.1, 0.2], "old1": [-0.2, 0.4, -0.1], "vpot0": [0.0, 0.0, 0.0, 0.0], "vpot1": [0.0, 0.0, 0.0],
+                       "lam0": 0.0, "maxlength": ml, "one0": [0.3], "one1": [0.25], "v_one0": 0.0, "v_one1": 0.0, "back": back, "forw": forw,
+                       "beta0": 1.0, "beta1": 1.0, "u": 0.5, "accept_all": True}
+
+
 def _run(w):
     if w.get("function") == "quantis_swap_zero":
         from vf.native_moves import run_quantis
@@ -83,7 +93,8 @@ def search(obname, limit=50000):
     known = None
     import itertools
     # only inputs of the function the obligation belongs to may serve as its failing input
-    src = _qscenarios() if obname.startswith("quantis") else (_scenarios() if obname.startswith("retis") else itertools.chain(_scenarios(), _qscenarios()))
+    qs = lambda: itertools.chain(_qscenarios(), _qscenarios_length())  # noqa: E731
+    src = qs() if obname.startswith("quantis") else (_scenarios() if obname.startswith("retis") else itertools.chain(_scenarios(), qs()))
     for k, w in enumerate(src):
         r = _run(w)
         if r["reproduced"] and (obname.startswith("native_crosscheck") or relevant(obname, {"native": r})):
@@ -108,7 +119,7 @@ def replay(obname, w):
 def native_crosscheck(spec, tier, seed):
     n, first_new, known_hits = 0, None, {}
     import itertools
-    for k, w in enumerate(itertools.chain(_scenarios(), _qscenarios())):
+    for k, w in enumerate(itertools.chain(_scenarios(), _qscenarios(), _qscenarios_length())):
         n += 1
         r = _run(w)
         if r["reproduced"]:
